@@ -588,6 +588,22 @@ def m_auth(hist, rec):
         if c["sender"] != admin:
             report(hist, "C08", "unknown_message", {"variant": var},
                    "message %s, which the authorization matrix does not list, succeeded for %s (not the admin)" % (var, c["sender"]), rec)
+        if rec["committed"] and a is not None:
+            # C05 / C02: whatever a message outside the model pays its sender in the staked asset must be what the
+            # requests it consumed entitle the sender to (floor(received x own / total) each, once)
+            D_ = cfg(b)["protocol_chain_config"]["ibc_token_denom"]
+            paid_ = sum(x["amount"] for m in c["msgs"] if m["k"] in ("send", "bank_send") and m.get("to") == c["sender"]
+                        for x in m["coins"] if x["denom"] == D_)
+            rb = {x["batch_id"]: int(x["amount"]) for x in (b["contract"]["requests"].get(c["sender"], {}).get("ok") or [])}
+            ra = {x["batch_id"]: int(x["amount"]) for x in (a["contract"]["requests"].get(c["sender"], {}).get("ok") or [])}
+            bt = {x["id"]: x for x in batches(b)}
+            due = 0
+            for bid, amt_ in rb.items():
+                if bid not in ra and bid in bt and bt[bid]["status"] == "received" and int(bt[bid]["batch_total_liquid_stake"]) > 0:
+                    due += int(bt[bid]["received_native_unstaked"]) * amt_ // int(bt[bid]["batch_total_liquid_stake"])
+            if paid_ != due:
+                report(hist, "C05", "unknown_payout", {"variant": var},
+                       "message %s paid its sender %d of the staked asset; the requests it consumed entitle the sender to %d" % (var, paid_, due), rec)
         if getattr(hist, "halted_by_history", True) and rec["committed"] and a is not None and (
                 state(a) != state(b) or a["ledger"]["bal"].get(su.contract) != b["ledger"]["bal"].get(su.contract)):
             report(hist, "C10", "unknown_message", {"variant": var},
@@ -639,6 +655,44 @@ def m_auth(hist, rec):
         hist.last_nomination = None
         if a["contract"]["pending_owner"] is not None:
             report(hist, "C12", "nomination_consumed", {"variant": var}, "nomination survives %s" % var, rec)
+
+
+def m_tracking(hist, rec):
+    """C07 (and the delivery half of C03), independent of the routing clauses of the ledger equations: every transfer a
+    committed transaction submitted is recorded under the sequence the chain assigned, with its own amount and
+    receiver; and a transaction whose transfer could not be submitted does not commit"""
+    a = rec["after"]
+    if a is None or cfg(a) is None:
+        return
+    calls = rec["calls"]
+    by_id = {}
+    for c in calls:
+        for m in c.get("msgs") or []:
+            if m.get("k") == "transfer":
+                by_id[m["id"]] = m
+    queue = {p["sequence"]: p for p in inflight(a)}
+    lst = cfg(a)["liquid_stake_token_denom"]
+    for c in calls:
+        if c["entry"] != "reply" or not rec["committed"]:
+            continue
+        rin = c.get("result_in") or {}
+        if "ok" in rin and c["outcome"] == "ok":
+            m = by_id.get(c.get("id"))
+            e = queue.get(rin["ok"])
+            if m is None:
+                continue
+            want = (str(m["coin"]["amount"]), m["coin"]["denom"], m["receiver"])
+            got = None if e is None else (str(e["amount"]["amount"]), e["amount"]["denom"], e["receiver"])
+            if e is None or got != want or e["status"] != "sent":
+                report(hist, "C07", "tracked_after_reply", {"have": e is not None},
+                       "transfer of %s %s to %s got sequence %s; the queue records %s" % (want[0], want[1], want[2], rin["ok"], e), rec)
+                if m["coin"]["denom"] == lst:
+                    report(hist, "C03", "delivery_tracked", {"have": e is not None},
+                           "the LST delivery of %s to %s (sequence %s) is recorded as %s: a failed delivery cannot be re-sent to its recipient" % (
+                               want[0], want[2], rin["ok"], e), rec)
+        if "err" in rin:
+            report(hist, "C07", "rollback_on_failed_submit", {"outcome": c["outcome"]},
+                   "a transfer could not be submitted (reply %s with an error) and the transaction committed all the same" % c.get("id"), rec)
 
 
 def m_flags(hist, rec):
@@ -929,4 +983,4 @@ def m_tokenfactory(hist, rec):
             report(hist, "C19", "stray_tokenfactory", {"variant": var, "build": hist.build}, "%s emits token-factory messages %s" % (var, tf), rec)
 
 
-ALL = [m_flags, m_tokenfactory, m_config, m_no_panic, m_oracle, m_ledgers, m_handler_level, m_lifecycle, m_auth, m_recover, m_transfer_shape]
+ALL = [m_flags, m_tokenfactory, m_config, m_no_panic, m_oracle, m_ledgers, m_handler_level, m_lifecycle, m_auth, m_recover, m_transfer_shape, m_tracking]
